@@ -69,9 +69,9 @@ CHECKS["C02"] = ("ledgersim", "exploration", LEDGER_TECH + "; plus a second real
 CHECKS["C12"] = ("ledgersim", "exploration", LEDGER_TECH + "; lease model over the simulated clock with clock steps placed on and around expiry instants",
   "Lease / release / extend / sweep / list operations by 2-3 identifiers interleaved with receipts, spends, confirmations, reorgs, reopen and clock advances chosen relative to live expiries (d-1, d, d+1); the lease model decides availability in Balance, UnspentOutputs and OutputsToWatch, the error values for foreign identifiers and unknown outputs, returned expiries, removal by a confirmed spend and survival of reopen.",
   "expiry is stored in whole seconds: runs use whole-second clock steps; one run in eight uses sub-second steps and asserts nothing lease-dependent inside the sub-second window. " + TB, "DESIGN.md §6 C12")
-CHECKS["C13"] = ("ledgersim", "exploration", LEDGER_TECH + "; per-transaction details and range queries derived from the ledger",
+CHECKS["C13"] = ("ledgersim+walletsim", "exploration", LEDGER_TECH + "; per-transaction details and range queries derived from the ledger",
   "After every event, for every universe transaction TxDetails / UniqueTxDetails (own, nil, wrong block) must equal the ledger-derived details (block, credits with amount / change / spent flag, debits with amounts), PreviousPkScripts the scripts of debited credits, and RangeTransactions over fixed and random ranges in both directions must report each known transaction exactly once, in block order, honouring early stop.",
-  TB, "DESIGN.md §6 C13")
+  "a second simulation (walletsim/c13w.go) runs the whole wallet over the C06 and C15 workloads and after every operation compares Wallet.GetTransactions over nine height ranges in both directions (each known transaction once, under the right block or as unconfirmed, blocks in range order, nothing else; summaries' own outputs / inputs / debit amounts / account and internal flags) with the known set obtained by direct lookup of every transaction the node ever saw or the wallet authored. " + TB, "DESIGN.md §6 C13")
 CHECKS["C14"] = ("ledgersim", "exploration", LEDGER_TECH + "; map iteration order inside wtxmgr is a seeded choice (instrumented range-over-map), 8 different orders per query",
   "After every event Store.UnminedTxs is called under 8 different seeded map-iteration orders and must return a permutation of the ledger's unconfirmed set with every transaction after each unconfirmed parent; DependencySort is additionally fed generated graphs (diamonds, duplicate edges, chains, independent roots, conflicting siblings, parents outside the set). Because range-over-map in wtxmgr is rewritten to a seeded order, an order-dependent failure replays exactly.",
   TB, "DESIGN.md §3.2, §6 C14")
